@@ -2,7 +2,7 @@
 CONTRACT_MODULES = ['contracts.encoding', 'contracts.keys_hd', 'contracts.keys_public', 'contracts.keys_addr']
 def _c():
     import contracts.keys_addr as a
-    return ['bitcoinlib.keys.Key.__init__[integer-secret]'] + list(a.ADDR_CASES) + ['bitcoinlib.keys.Key.address[any-history-native]',
+    return ['bitcoinlib.keys.Key.__init__[integer-secret]'] + list(a.ADDR_CASES) + ['bitcoinlib.keys.Key.address[any-history-native]', 'bitcoinlib.keys.HDKey.address[any-history-native]'] + list(a.HD_ADDRESS_CASES) + [
         'bitcoinlib.keys.Key.public_uncompressed_hex[decompress]', 'bitcoinlib.keys.Key.__init__[offcurve-public-native]']
 CONTRACTS = _c()
 LEVEL = 'proof'
@@ -10,6 +10,7 @@ LEVEL_TEXT = ('Proved for every input: Key(<integer>) holds exactly that secret,
               'one point; a compressed key decompresses to 04||x||y with the parity the prefix states (64 hex digits each); Address(...) for every '
               'network x {p2pkh, p2sh, p2sh-p2wpkh, p2sh-p2wsh, p2wpkh, p2wsh, p2tr} carries the standard payload hash of the data and the '
               'network prefix of that address kind and hands exactly those to the text encoder (77 configurations, symbolic data). '
+              'HDKey.address passes every specified argument - an explicit False included - on to Key.address and fills only the unspecified ones from the key (12 argument shapes, Key.address abstract). '
               'Refusal of non-keys: scalars >= n and off-curve public encodings are ACCEPTED - two open findings (the first is test-pinned). '
               'Key.address after earlier address() calls on the same object is evaluated natively against reference encoders (bounded).')
 LEVEL_NOTE = ('Uninterpreted: secp256k1 scalar multiplication, modular exponentiation (square root), hash160 / sha256, the text encoder '
